@@ -58,11 +58,29 @@ def judgements():
         "wrapper per wrapped object; granted only while the translator finds (a) the wrapper method calling its target "
         "under its own exclusive lock, (b) Scheme.setup assigning to RBF / SyncFactory a function literal that builds the "
         "wrapper, (c) no other assignment of these fields outside constructors" % ", ".join(sorted(WRAPPED)),
+        "J-payload (checked, not assumed): a value with hidden mutable state stored in a struct field, a composite literal field or "
+        "a sync.Map field of these structs makes every retrieval (plain read of the field; Load, LoadOrStore, Range, Swap, "
+        "CompareAndSwap, LoadAndDelete of the sync.Map) a WRITE of the extra location <field>@payload under the real locks held "
+        "there (the pseudo-lock of the container does not count), so all users need one common lock.  Recognised as stateful: a "
+        "function literal that assigns a captured variable of its enclosing function or captures a variable whose type is one "
+        "of a fixed list of standard-library types not safe for concurrent use (hash.Hash/Hash32/Hash64 incl. hmac, "
+        "cipher.Stream/BlockMode, bytes.Buffer/Reader, strings.Builder/Reader, math/rand.Rand/Source, bufio.*, json/gob "
+        "encoders and decoders, tabwriter, gzip); the result of a function or method of the package that returns such a "
+        "literal; a local variable bound to one of these; any expression whose static type is in the list.  Methods called on a "
+        "field whose type is in the list are writes of the field.  Standard-library types come from go/importer \"source\"",
+        "J-callback (assumed): every other function value or interface value kept in a field (configuration callbacks such as "
+        "Send, RBF, SyncFactory, Logger, sendMsg, ForwardToBackend; method values; literals that only read what they capture; "
+        "values that reach a field through parameters, other functions, struct wrappers, slices or channels) is assumed to be "
+        "safe to call from several goroutines; hidden state behind pointers captured by a literal is not analysed",
         "J-closure: a function literal handed to a function of the same package or called on the spot runs there (it "
         "inherits the locks); every other literal, `go` and `defer` start with no lock held",
         "J-flow: locks held after if/switch/select = those held on every branch that falls through; loops must leave the "
         "lock set unchanged; a deferred Unlock keeps the lock to the end of the function",
     ]
+
+
+# sync.Map methods that hand out a stored value
+RETRIEVES = ("Load", "LoadOrStore", "Range", "Swap", "CompareAndSwap", "LoadAndDelete")
 
 
 class Shape(Exception):
@@ -124,6 +142,16 @@ class Analysis:
                     self.refs.add(op["callee"])
                 elif op["t"] in ("call", "once") and op.get("callee") in self.units:
                     self.callers.setdefault(op["callee"], []).append((u, op))
+        self.payload = {}
+        for u in self.units.values():
+            for op in u["ops"]:
+                if op["t"] == "payload" and op["loc"] in self.tracked:
+                    self.payload.setdefault(op["loc"], [])
+                    if op["why"] not in self.payload[op["loc"]]:
+                        self.payload[op["loc"]].append(op["why"])
+        for loc, why in sorted(self.payload.items()):
+            self.notes.append("J-payload: %s holds values with hidden mutable state (%s): every retrieval is an access of %s@payload "
+                              "under the real locks held" % (loc, "; ".join(why), loc))
         self.granted = self.wrappers()
         self.inh = self.fix_locks()
         self.inh_once = self.fix_onces()
@@ -268,8 +296,17 @@ class Analysis:
                 if op["via"] != "plain":
                     held[op["loc"] + "#" + op["via"]] = True
                 why = "fresh" if op.get("fresh") else "init" if n in INIT else None
+                real = dict(held)
+                if op["via"] != "plain":
+                    real.pop(op["loc"] + "#" + op["via"], None)
                 raw.append(dict(loc=op["loc"], kind=op["k"], held=held, fn=n, why=why, once_body=body_of,
                                 onces=set(op["onces"]) | self.inh_once[n], file=self.rel(u["file"]), line=op["line"], via=op["via"]))
+                # J-payload: taking a value with hidden mutable state out of the field = using that state (a write), and the
+                # container's own synchronisation does not extend to it
+                if op["loc"] in self.payload and ((op["via"] == "syncmap" and op.get("m") in RETRIEVES) or
+                                                  (op["via"] == "plain" and op["k"] == "r")):
+                    raw.append(dict(loc=op["loc"] + "@payload", kind="w", held=real, fn=n, why=why, once_body=body_of,
+                                    onces=set(op["onces"]) | self.inh_once[n], file=self.rel(u["file"]), line=op["line"], via="plain"))
         # J-once: the body of a Do is set-up for a field iff every other access of the field is behind that Do
         by_loc = {}
         for a in raw:
